@@ -393,11 +393,13 @@ Proof. eexists. eexists. split; [vm_compute; reflexivity|]. repeat split; vm_com
 (* ======================= session 6: exactness, order, well-formedness ======================= *)
 
 (* c13_empty_file_path.  The path-level statement for empty-file.  For every tree
-   and every empty-file mutation whose path is written without "." / ".." and
-   without a trailing slash (what filepath.Clean leaves), and which in the
-   result is not the NAME OF A SYMBOLIC LINK (openFile follows such a link by
-   its own rules: not covered): the entry stored under the path and what the
-   path resolves to are ONE node t, and that node
+   and every empty-file mutation whose path is written without "." / ".." — a
+   TRAILING SLASH is allowed: mutateEmptyFile cleans the path (fix 10a6051, was
+   finding C13-F6; [empty_file_path_cleaned] is read from the source and the proof
+   below uses its value) — and which in the result is not the NAME OF A SYMBOLIC
+   LINK (openFile follows such a link by its own rules: not covered): with p the
+   path without its trailing slash, the entry stored under p and what the
+   declared path resolves to are ONE node t, and that node
    - is neither a directory nor a link; it is a regular file when it was
      created by this mutation, and keeps its kind when it existed (a regular
      file — also one backed by a package's tar entry on tarfs — or a device);
@@ -407,41 +409,60 @@ Proof. eexists. eexists. split; [vm_compute; reflexivity|]. repeat split; vm_com
    - carries the declared mode and owner. *)
 Theorem c13_empty_file_path : forall maxl f m f',
   m_type m = "empty-file" -> mutate_one maxl f m = FOk f' ->
-  let p := path_of (m_path m) in
-  forallb tidy (p_comps p) = true -> p_trail p = false ->
+  let p0 := path_of (m_path m) in
+  let p := mkPath (p_abs p0) (p_comps p0) false in
+  forallb tidy (p_comps p0) = true ->
   (forall l, direct maxl f' p = FOk l -> nkind l <> KSym) ->
-  exists t n, gn maxl f' p = FOk t /\ direct_idx maxl f' p = FOk t /\ get f' t = Some n /\
+  exists t n, gn maxl f' p0 = FOk t /\ direct_idx maxl f' p = FOk t /\ get f' t = Some n /\
     ndata n = "" /\ edata n = nback n /\ (tarfs_trunc_detaches = true -> edata n = "") /\
     nperm n = m_perm m /\ nuid n = m_uid m /\ ngid n = m_gid m /\
     nkind n <> KDir /\ nkind n <> KSym /\
     (List.length f <= t -> nkind n = KFile)%nat /\
     (forall n0, get f t = Some n0 -> nkind n = nkind n0).
-Proof. exact empty_file_path. Qed.
+Proof. intros maxl f m f' Hty H p0 p Ht Hs. exact (empty_file_path maxl f m f' Hty H Ht (or_introl eq_refl) Hs). Qed.
 Print Assumptions c13_empty_file_path.
-(* satisfiable: a fresh file, and a package-backed file of tarfs (truncation detaches today) *)
+(* satisfiable: a fresh file, a package-backed file of tarfs (truncation detaches today), a path with a trailing slash *)
 Example c13_empty_file_path_example :
-  tarfs_trunc_detaches = true /\
+  tarfs_trunc_detaches = true /\ empty_file_path_cleaned = true /\
   let f := [mkNode KDir 493 0 0 "" "" [("lib", 1%nat)] ""; mkNode KDir 493 0 0 "" "" [("a.so", 2%nat)] ""; mkNode KFile 420 0 0 "" "" [] "ELF"] in
-  forall m, In m [mkMut "empty-file" "/lib/a.so" "" 384 5 6 false; mkMut "empty-file" "/etc/new/f" "" 416 0 0 false] ->
+  forall m, In m [mkMut "empty-file" "/lib/a.so" "" 384 5 6 false; mkMut "empty-file" "/etc/new/f" "" 416 0 0 false;
+                  mkMut "empty-file" "/srv/keep/" "" 416 5 6 false] ->
     match mutate_one 40 f m with
     | FOk f' => match stat 40 f' (path_of (m_path m)) with
                 | FOk n => nkind n = KFile /\ edata n = "" /\ nperm n = m_perm m /\ nuid n = m_uid m
                 | _ => False end
     | _ => False end.
-Proof. split; [reflexivity|]. intros f m [<-|[<-|[]]]; vm_compute; repeat split. Qed.
+Proof. split; [reflexivity|]. split; [reflexivity|]. intros f m [<-|[<-|[<-|[]]]]; vm_compute; repeat split. Qed.
 
-(* finding C13-F6: with a trailing slash the statement fails — the path becomes a
-   directory carrying the declared mode/owner and the file is nested inside it *)
-Theorem c13_empty_file_trailing_slash_refuted :
-  empty_file_path_cleaned = false ->
+(* c13_empty_file_trailing_slash_fixed (was finding C13-F6, fixed by 10a6051): the
+   old witness {type: empty-file, path: /x/y/} now creates the FILE /x/y with the
+   declared mode and owner, nothing nested, validator satisfied *)
+Theorem c13_empty_file_trailing_slash_fixed :
   exists m f', m_type m = "empty-file" /\ m_path m = "/x/y/" /\ p_trail (path_of (m_path m)) = true /\
     mutate_paths 40 (empty_fs 493) [m] = FOk f' /\
+    (exists n, stat 40 f' (path_of (m_path m)) = FOk n /\ nkind n = KFile /\ edata n = "" /\
+               nperm n = m_perm m /\ nuid n = m_uid m /\ ngid n = m_gid m) /\
+    stat 40 f' (path_of "/x/y/y") = FNotExist /\
+    realised_tags m (mkStep None (match stat 40 f' (path_of (m_path m)) with FOk n => Some (sinfo_of n) | _ => None end) 0 None []) = [].
+Proof. exact empty_file_trailing_slash_fixed. Qed.
+Print Assumptions c13_empty_file_trailing_slash_fixed.
+
+(* HYPOTHETICAL (not today's source): were the declared path handed to
+   filepath.Dir/Base as written ([mutate_empty_file_uncleaned], the shape before
+   fix 10a6051, which IS the model whenever goextract finds no Clean), /x/y/ would
+   become a directory with the declared attributes and the file would be
+   /x/y/y; the validator's tag for it stays armed *)
+Theorem c13_hypothetical_uncleaned_empty_file_nests :
+  (exists m f', m_type m = "empty-file" /\ m_path m = "/x/y/" /\
+    mutate_empty_file_uncleaned 40 (empty_fs 493) m = FOk f' /\
     (exists n, stat 40 f' (path_of (m_path m)) = FOk n /\ nkind n = KDir /\ nperm n = m_perm m /\ nuid n = m_uid m) /\
     (exists n, stat 40 f' (path_of "/x/y/y") = FOk n /\ nkind n = KFile /\ nperm n = create_perm /\ nuid n = 0%N) /\
     realised_tags m (mkStep None (match stat 40 f' (path_of (m_path m)) with FOk n => Some (sinfo_of n) | _ => None end) 0 None [])
-      = ["viol:empty-file-trailing-slash-nests-file"].
-Proof. exact empty_file_trailing_slash_refuted. Qed.
-Print Assumptions c13_empty_file_trailing_slash_refuted.
+      = ["viol:empty-file-trailing-slash-nests-file"]) /\
+  (empty_file_path_cleaned = false -> forall maxl f m, m_type m = "empty-file" ->
+     mutate_one maxl f m = mutate_empty_file_uncleaned maxl f m).
+Proof. split; [exact hypothetical_uncleaned_empty_file_nests | exact uncleaned_is_model]. Qed.
+Print Assumptions c13_hypothetical_uncleaned_empty_file_nests.
 
 (* c13_recursive_exact.  Only `directory` honours `recursive` (mutatePermissions
    ignores the flag).  For every tree without a doubly-listed name
@@ -642,31 +663,57 @@ Example c13_group_collisions_example :
     | _ => False end.
 Proof. exact group_collision_examples. Qed.
 
-(* c13_account_separators_refuted, finding C13-F5.  Validate (accounts part, as
-   modelled from the source: a user needs a name and a uid other than 0, a group
-   a name; [validate_forbidden] = the strings.ContainsAny tests goextract found in
-   it — none today) accepts a shell holding a newline and a name holding ':'.
-   mutateAccounts writes fields verbatim, so the passwd file then re-reads as
-   the configured user followed by an entry NOBODY CONFIGURED (here one with uid
-   0, which Validate refuses for configured users), or cannot be read at all —
-   "exactly the configured users" fails.  For configurations that are clean
-   (c13_parsed_wellformed) it holds. *)
-Theorem c13_account_separators_refuted :
-  validate_forbidden = [] ->
-  validate_accounts [inject_user] [] = true /\ validate_accounts [colon_user] [] = true /\
+(* c13_validated_accounts (was finding C13-F5, fixed by 3dfd539).  Validate, accounts
+   part, as modelled from the source: a user needs a name and a uid other than 0,
+   a group a name, and no field may hold a character of the sets goextract reads
+   from Validate's strings.ContainsAny tests ([validate_forbidden]; the proof
+   evaluates them: ':' and every ASCII blank, newline included, for user names,
+   shells, group names and members, ',' too for members, ':' and newline for
+   homes).  Hence for every configuration Validate ACCEPTS (ids within uint32,
+   which the Go types guarantee): every configured entry is clean, and — whatever
+   text the packages ship, provided it parses and the written lines stay below
+   the scanner's limit — etc/passwd and etc/group as written by mutateAccounts
+   re-read as exactly old ++ configured (groups up to the [""] member list): no
+   entry nobody configured, no unreadable line.  The old witnesses are refused. *)
+Theorem c13_validated_accounts :
+  (forall users groups, validate_accounts users groups = true -> ids_in_range users groups ->
+     forallb clean_user users = true /\ forallb clean_group groups = true) /\
+  (forall utxt gtxt oldu oldg users groups,
+     validate_accounts users groups = true -> ids_in_range users groups ->
+     parse_users utxt = Some oldu -> parse_groups gtxt = Some oldg ->
+     forallb short_user (oldu ++ List.map user_to_entry users) = true ->
+     forallb short_group (oldg ++ List.map group_to_entry groups) = true ->
+     parse_users (write_users (oldu ++ List.map user_to_entry users)) = Some (oldu ++ List.map user_to_entry users) /\
+     parse_groups (write_groups (oldg ++ List.map group_to_entry groups)) =
+       Some (List.map norm_group (oldg ++ List.map group_to_entry groups))) /\
+  (validate_accounts [inject_user] [] = false /\ validate_accounts [colon_user] [] = false /\
+   validate_accounts [mkCU " app" 1000 None "" "/home/app"] [] = false /\ validate_accounts [mkCU "svc" 1001 None "/bin/sh " ""] [] = false /\
+   validate_accounts [] [mkCG "g:h" 7 []] = false /\ validate_accounts [] [mkCG "g" 7 ["a,b"]] = false /\
+   validate_accounts [] [mkCG "g" 7 [String.append "a" (String nl "root:x:0:app")]] = false).
+Proof. split; [exact validated_accounts_clean|]. split; [exact validated_accounts_reread | exact separators_refused]. Qed.
+Print Assumptions c13_validated_accounts.
+Example c13_validated_accounts_example :
+  validate_accounts [mkCU "app" 1000 None "" ""; mkCU "svc" 1001 (Some 2000%N) "/sbin/nologin" "/var/lib/my svc"] [mkCG "g" 5 ["app"; "svc"]] = true /\
+  ids_in_range [mkCU "app" 1000 None "" ""] [mkCG "g" 5 ["app"]].
+Proof.
+  split; [vm_compute; reflexivity|]. split.
+  - intros u [<-|[]]. split; [reflexivity | intros g E; discriminate].
+  - intros g [<-|[]]. reflexivity.
+Qed.
+
+(* HYPOTHETICAL (not the build pipeline): a configuration that did NOT go through
+   today's Validate — mutateAccounts called directly, or Validate without its
+   character tests ([validate_basic], the shape before fix 3dfd539).
+   mutateAccounts itself still writes fields verbatim: a shell holding a newline
+   then adds a uid-0 entry nobody configured, a name holding ':' makes the file
+   unreadable.  Validate is the only protection; the validator's tag
+   account-field-breaks-passwd-syntax stays armed for it. *)
+Theorem c13_hypothetical_unvalidated_separators :
+  validate_basic [inject_user] [] = true /\ validate_basic [colon_user] [] = true /\
   clean_user inject_user = false /\ clean_user colon_user = false /\
   (exists txt, passwd_after [inject_user] = Some txt /\
      parse_users txt = Some [user_to_entry (mkCU "app" 1000 None "/bin/sh" ""); mkUE "root2" "x" 0 0 "" "/root" "/bin/sh"] /\
      parse_users txt <> Some (List.map user_to_entry [inject_user])) /\
   (exists txt, passwd_after [colon_user] = Some txt /\ parse_users txt = None).
-Proof. exact separators_refuted. Qed.
-Print Assumptions c13_account_separators_refuted.
-(* which of the two worlds the source is in on this run: no test in Validate (the
-   hypothesis above holds), or Validate refuses both witnesses (fixes/C13-F5.patch) *)
-Example c13_account_separators_status :
-  validate_forbidden = [] \/ (validate_accounts [inject_user] [] = false /\ validate_accounts [colon_user] [] = false).
-Proof. first [left; reflexivity | right; split; vm_compute; reflexivity]. Qed.
-(* likewise for C13-F6: the path is used as written, or it is cleaned (fixes/C13-F6.patch) *)
-Example c13_empty_file_trailing_slash_status :
-  empty_file_path_cleaned = false \/ empty_file_target "/x/y/" = path_of "/x/y".
-Proof. first [left; reflexivity | right; vm_compute; reflexivity]. Qed.
+Proof. exact hypothetical_unvalidated_separators. Qed.
+Print Assumptions c13_hypothetical_unvalidated_separators.
